@@ -346,6 +346,130 @@ pub fn nonminimal(ctx: &Ctx) -> Report {
     })
 }
 
+// ---------------- trees built from the typed constructors ----------------
+
+fn class_of(c: u8) -> TagClass {
+    match c {
+        0 => TagClass::Universal,
+        1 => TagClass::Application,
+        2 => TagClass::Context,
+        _ => TagClass::Private,
+    }
+}
+
+/// A random tree of lber's typed values (Sequence, Set, OctetString, Boolean, Null, Integer, Enumerated,
+/// ExplicitTag) with arbitrary class and tag number, and the reference tree it denotes. Children of a
+/// constructed value are sometimes repeated verbatim: a SET OF with equal members is still that many
+/// members on the wire.
+fn gen_typed(rng: &mut Rng, depth: usize) -> (Tag, Node) {
+    use lber::structures::{ExplicitTag, Null, OctetString, Sequence, Set};
+    let class = rng.below(4) as u8;
+    let id = rng.below(31);
+    let kind = if depth == 0 { 2 + rng.below(5) } else { rng.below(8) };
+    match kind {
+        0 | 1 => {
+            let n = match rng.below(5) {
+                0 => 0,
+                1 => 1,
+                _ => rng.usize(6),
+            };
+            let mut tags = vec![];
+            let mut nodes = vec![];
+            for _ in 0..n {
+                let (t, nd) = gen_typed(rng, depth - 1);
+                tags.push(t.clone());
+                nodes.push(nd.clone());
+                if rng.chance(1, 3) {
+                    tags.push(t);
+                    nodes.push(nd);
+                }
+            }
+            let node = Node::C { class, tag: id as u8, kids: nodes };
+            if kind == 0 {
+                (Tag::Sequence(Sequence { id, class: class_of(class), inner: tags }), node)
+            } else {
+                (Tag::Set(Set { id, class: class_of(class), inner: tags }), node)
+            }
+        }
+        2 => {
+            let data = rng.bytes(rng.clone().usize(40));
+            (Tag::OctetString(OctetString { id, class: class_of(class), inner: data.clone() }), Node::P { class, tag: id as u8, data })
+        }
+        3 => {
+            let v = rng.bool();
+            (Tag::Boolean(Boolean { id, class: class_of(class), inner: v }), Node::P { class, tag: id as u8, data: vec![if v { 0xff } else { 0 }] })
+        }
+        4 => (Tag::Null(Null { id, class: class_of(class), inner: () }), Node::P { class, tag: id as u8, data: vec![] }),
+        5 => {
+            let v = match rng.below(3) {
+                0 => rng.below(300) as i64 - 150,
+                1 => rng.next() as i64,
+                _ => -(rng.below(1 << 40) as i64),
+            };
+            (Tag::Integer(Integer { id, class: class_of(class), inner: v }), Node::P { class, tag: id as u8, data: ber::int_content(v) })
+        }
+        6 => {
+            let v = rng.below(70000) as i64 - 35000;
+            (Tag::Enumerated(Enumerated { id, class: class_of(class), inner: v }), Node::P { class, tag: id as u8, data: ber::int_content(v) })
+        }
+        _ => {
+            let (t, nd) = gen_typed(rng, depth - 1);
+            (Tag::ExplicitTag(ExplicitTag { id, class: class_of(class), inner: Box::new(t) }), Node::C { class, tag: id as u8, kids: vec![nd] })
+        }
+    }
+}
+
+pub fn typed_trees(ctx: &Ctx) -> Report {
+    use lber::structures::{SequenceOf, SetOf};
+    let n = ctx.n(200_000, 500_000_000);
+    par_cases(ctx, "typed_trees", n, ctx.secs(20, 600), |i, rng, rep| {
+        let replay = json!({"lane":"typed_trees","case":i});
+        let (tag, node) = if i % 5 == 4 {
+            // SET OF / SEQUENCE OF with a run of equal members
+            let v = rng.below(1000) as i64;
+            let k = 1 + rng.usize(5);
+            let members: Vec<Integer> = (0..k).map(|j| Integer { inner: if rng.chance(2, 3) { v } else { v + j as i64 }, ..Default::default() }).collect();
+            let kids: Vec<Node> = members.iter().map(|m| Node::P { class: 0, tag: 2, data: ber::int_content(m.inner) }).collect();
+            if rng.bool() {
+                (Tag::StructureTag(SetOf { inner: members, ..Default::default() }.into_structure()), Node::C { class: 0, tag: 17, kids })
+            } else {
+                (Tag::StructureTag(SequenceOf { inner: members, ..Default::default() }.into_structure()), Node::C { class: 0, tag: 16, kids })
+            }
+        } else {
+            gen_typed(rng, 1 + rng.clone().usize(if ctx.tiny { 2 } else { 4 }))
+        };
+        let enc = match guarded(|| lber_encode(tag.clone().into_structure())) {
+            Ok(e) => e,
+            Err(p) => {
+                rep.violation(format!("C07:typed:encode:panic@{}", p.site()), format!("{:?}", tag).chars().take(300).collect::<String>(), replay);
+                return;
+            }
+        };
+        let reference = ber::encode_min(&node);
+        if enc != reference {
+            let sig = match ber::decode_exact(&enc) {
+                Ok((n, _)) if n != node => "C07:typed:encode:decodes-to-different-tree",
+                Ok(_) => "C07:typed:encode:bytes-differ",
+                Err(_) => "C07:typed:encode:output-not-valid-BER",
+            };
+            rep.violation(sig, format!("value {} lber={} ref={}", format!("{:?}", tag).chars().take(200).collect::<String>(), ber::hex(&enc[..enc.len().min(64)]), ber::hex(&reference[..reference.len().min(64)])), replay.clone());
+        }
+        match guarded(|| lber::parse::parse_tag(&enc).map(|(r, t)| (r.len(), t))) {
+            Ok(Ok((rest, t))) => {
+                if rest != 0 || from_lber(&t) != node {
+                    rep.violation("C07:typed:parse:roundtrip-tree-differs", format!("value {}", format!("{:?}", tag).chars().take(200).collect::<String>()), replay.clone());
+                }
+            }
+            Ok(Err(_)) => rep.violation("C07:typed:parse:rejects-own-encoding", format!("enc {}", ber::hex(&enc[..enc.len().min(64)])), replay.clone()),
+            Err(p) => rep.violation(format!("C07:typed:parse:panic@{}", p.site()), format!("enc {}", ber::hex(&enc[..enc.len().min(64)])), replay.clone()),
+        }
+        if i < 2 {
+            rep.sample(json!({"lane":"typed_trees","case":i,"value":format!("{:?}", tag).chars().take(200).collect::<String>(),"encoding":ber::hex(&enc[..enc.len().min(48)])}));
+        }
+        rep.case(Some(fp_bytes(&enc)));
+    })
+}
+
 pub fn replay(ctx: &Ctx, v: &Value) -> Report {
     let mut rep = Report::new();
     match v["lane"].as_str().unwrap_or("") {
